@@ -112,6 +112,13 @@ theorem erasure (st : Reader) (bs : Bytes) :
      | .panic => .panic) = Flv.demux bs :=
   ⟨erase_readMessageE st bs, erase_flvReadTagFullE bs, erase_flvReadHeaderE bs, erase_flvDemuxE bs⟩
 
+/-- The class-only primitives of the stream model (`Oryx.readFull`, `Oryx.copyN`, `Oryx.Flv.copyN`) are the
+`t = 0` (the stream ends) instance of the transport-parametrised primitives, with the error value forgotten. -/
+theorem primitives_instance (n : Nat) (bs : Bytes) :
+    (readFullE n 0 bs).erase = readFull n bs ∧ (copyNE n 0 bs).erase = copyN n bs ∧
+    (copyNE n 0 bs).erase = Flv.copyN n bs :=
+  ⟨erase_readFullE n bs, erase_copyNE n bs, erase_copyNE_flv n bs⟩
+
 /-! ## 3. RTMP: a stream that ends or fails at any byte -/
 
 /-- The domain, as in C01: chunk stream 2..63, timestamp < 2^31, payload 1..2^24−1 bytes, well-formed bodies
@@ -196,6 +203,30 @@ theorem handshake_cut (t : Nat) (c0 c1 c2 rest : Bytes) (h0 : c0.length = 1) (h1
     (3073 ≤ k → hsReadE t ((c0 ++ (c1 ++ (c2 ++ rest))).take k) = .ok ((c0, c1, c2), rest.take (k - 3073))) ∧
     (k < 3073 → ∃ e, hsReadE t ((c0 ++ (c1 ++ (c2 ++ rest))).take k) = .err e ∧ e.cause = .root t) :=
   hs_cut t c0 c1 c2 rest h0 h1 h2 k
+
+/-- A whole connection as the reader sees it — the peer's 3073 handshake bytes, then its chunk stream: cut or
+failing at any offset `k`, either a handshake read returns the transport's error, or the handshake completes and
+the session reader sees exactly `take (k − 3073)` of the chunk stream, to which `cut_session` applies. -/
+theorem connection_cut (msgs : List Msg) (hall : ∀ m ∈ msgs, MsgOK m) (t : Nat) (c0 c1 c2 : Bytes)
+    (h0 : c0.length = 1) (h1 : c1.length = 1536) (h2 : c2.length = 1536) (k : Nat) :
+    ∃ W, writeAll 128 msgs = .ok W ∧
+      (k < 3073 → ∃ e, hsReadE t ((c0 ++ (c1 ++ (c2 ++ W))).take k) = .err e ∧ e.cause = .root t) ∧
+      (3073 ≤ k → ∃ rest, hsReadE t ((c0 ++ (c1 ++ (c2 ++ W))).take k) = .ok ((c0, c1, c2), rest) ∧
+        Outcome t (readSession 128 t rest) ((wholeMsgs 128 (k - 3073) msgs).map received)
+          ((∃ W', writeAll 128 (wholeMsgs 128 (k - 3073) msgs) = .ok W' ∧ W'.length = k - 3073) ∨ W.length ≤ k - 3073)) := by
+  obtain ⟨W, hw, h⟩ := cut_session msgs hall 128 (by decide) {} rfl (by intro k ch hk; simp [Chunks.get] at hk)
+  refine ⟨W, hw, (hs_cut t c0 c1 c2 W h0 h1 h2 k).2, fun hk => ⟨_, (hs_cut t c0 c1 c2 W h0 h1 h2 k).1 hk, ?_⟩⟩
+  exact (h t (k - 3073) _ (Nat.lt_succ_self _)).1
+
+/-- Handshake writes over a transport that accepts `K` bytes: the bytes delivered are the first `K` of the 3073;
+all three steps return nil iff `K ≥ 3073`, else the step in progress returns an error with the transport's cause. -/
+theorem handshake_write_fault (t K : Nat) (c0 c1 c2 : Bytes) :
+    (hsWriteW t { budget := K } c0 c1 c2).2.2.out = (c0 ++ (c1 ++ c2)).take K ∧
+    ((c0 ++ (c1 ++ c2)).length ≤ K → (hsWriteW t { budget := K } c0 c1 c2).2.1 = none ∧ (hsWriteW t { budget := K } c0 c1 c2).1 = 3) ∧
+    (K < (c0 ++ (c1 ++ c2)).length → ∃ e, (hsWriteW t { budget := K } c0 c1 c2).2.1 = some e ∧ e.cause = .root t) := by
+  have h0 : Healthy K [] ({ budget := K } : BW) := ⟨rfl, by simp, rfl⟩
+  have := hsWritesW_spec (K := K) t [("write c0s0", c0), ("write c0s1", c1), ("write c2s2", c2)] [] _ h0 rfl
+  simpa [hsWriteW] using this
 
 /-! ## 4. FLV -/
 
